@@ -286,17 +286,19 @@ theorem stepCStmt_WF {s : TState} (hs : s.WF) (b : Beh) : (stepCStmt s b).1.WF :
     rw [h] at h1
     cases out <;> simp only <;> split <;> first | exact tReset_WF h1 | exact h1
 
+/-- regenerated fact: `preds_written` is created per instance (`__init__`), so a sub-routine's own transformer shares
+    nothing with the instance that registers it -/
+theorem preds_not_shared : predsShared = false := by decide
+
 theorem stepSub_eq (s : TState) (b : Beh) : stepSub s b =
-    ({ s with flags := { s.flags with preds :=
-        (runBeh { TState.fresh with flags := { on := [], preds := s.flags.preds } } b).1.flags.preds } },
-     [(runBeh { TState.fresh with flags := { on := [], preds := s.flags.preds } } b).2]) := by
-  simp only [stepSub, sub_fresh, if_true]
+    (s, [(runBeh { TState.fresh with flags := { on := [], preds := [] } } b).2]) := by
+  simp only [stepSub, sub_fresh, if_true, preds_not_shared, Bool.false_eq_true, if_false]
 
 theorem stepSub_WF {s : TState} (hs : s.WF) (b : Beh) : (stepSub s b).1.WF := by
   rw [stepSub_eq]; exact hs
 
 theorem stepSub_clean (s : TState) (b : Beh) : (stepSub s b).1.clean = s.clean := by
-  rw [stepSub_eq]; rfl
+  rw [stepSub_eq]
 
 theorem step_WF {s : TState} (hs : s.WF) (c : Call) : (step s c).1.WF := by
   cases c with
@@ -420,7 +422,7 @@ theorem step_outputs_of_clean {s s' : TState} (hs : s.WF) (hs' : s'.WF) (hc : s.
   | insn ps => exact insn_history_free s s' hs hs' hp ps
   | subRoutine b =>
     show (stepSub s b).2 = (stepSub s' b).2
-    rw [stepSub_eq, stepSub_eq, hp]
+    rw [stepSub_eq, stepSub_eq]
 
 /-- **History freedom (partial)**: after a safe history that left no recorded predicate, every call produces the
     outputs it produces on a fresh instance. -/
@@ -441,7 +443,7 @@ theorem insn_history_free_hist (h : List Call) (hp : (runHistory TState.fresh h)
 theorem sub_history_free_hist (h : List Call) (hp : (runHistory TState.fresh h).1.flags.preds = [])
     (b : Beh) : lastOutputs h (.subRoutine b) = lastOutputs [] (.subRoutine b) := by
   show (stepSub _ b).2 = (stepSub _ b).2
-  rw [stepSub_eq, stepSub_eq, hp]; rfl
+  rw [stepSub_eq, stepSub_eq]
 
 
 /-! witness behaviours -/
@@ -559,7 +561,7 @@ theorem history_free_fixed (h : List Call) (c : Call) : lastOutputsFixed h c = l
   stepFixed_outputs_of_core (runHistoryFixed_pristine (s := TState.fresh) rfl h) c
 
 /-! ## 5. Dependants of the known defects
-    (`compile_c_stmt` does not reset in a `finally`; `preds_written` is class-level and never cleared).
+    (`compile_c_stmt` does not reset in a `finally`; the `preds_written` leak has been repaired in the source).
     These are TRUE on the current source and stop compiling when it is repaired. Nothing above depends on them. -/
 -- BEGIN KNOWN-DEFECT SECTION
 section KnownDefect
@@ -598,27 +600,46 @@ theorem history_free_full_statement_false : ¬ history_free_full_statement := by
   rw [cstmt_after_failure_witness.1, cstmt_after_failure_witness.2] at this
   exact absurd this (by decide)
 
-/-- `preds_written` leaks from a sub-routine's OWN transformer instance into the next statement … -/
-theorem preds_leak_across_instances_witness :
-    lastOutputs [.subRoutine bP0] (.cStmt bPd) =
-      [some { ops := ["Pd"], immSets := [], leftover := [], tmps := 0,
-              attrs := ["HEX_IL_INSN_ATTR_WPRED", "HEX_IL_INSN_ATTR_WRITE_P0"] }] ∧
-    lastOutputs [] (.cStmt bPd) =
-      [some { ops := ["Pd"], immSets := [], leftover := [], tmps := 0, attrs := ["HEX_IL_INSN_ATTR_WPRED"] }] := by
-  decide
+/-- Since the repair of `preds_written` (per instance, cleared by `reset_flags`) nothing recorded by a sub-routine's own
+    transformer, an earlier instruction or an earlier statement reaches later outputs. -/
+theorem preds_isolated_witnesses :
+    lastOutputs [.subRoutine bP0] (.cStmt bPd) = lastOutputs [] (.cStmt bPd) ∧
+    lastOutputs [.insn [bP0]] (.insn [bPd]) = lastOutputs [] (.insn [bPd]) ∧
+    lastOutputs [.cStmt bP0] (.subRoutine bPd) = lastOutputs [] (.subRoutine bPd) := by decide
 
-/-- … from one instruction into the next (test_C4_and_and) … -/
-theorem preds_leak_across_insns_witness :
-    lastOutputs [.insn [bP0]] (.insn [bPd]) ≠ lastOutputs [] (.insn [bPd]) := by decide
+/-! ### consequences of the repaired `preds_written` (TRUE on the current source; they stop compiling if the clearing
+    in `reset_flags` or the per-instance initialisation is removed again) -/
 
-/-- … and from a statement into a later sub-routine. -/
-theorem preds_leak_into_subroutine_witness :
-    lastOutputs [.cStmt bP0] (.subRoutine bPd) ≠ lastOutputs [] (.subRoutine bPd) := by decide
+theorem resetFlags_preds_nil (f : Flags) : (resetFlags f).preds = [] := by
+  simp only [resetFlags, show Gen.resetFlagsCleared.contains "preds_written" = true by decide, if_true]
 
-/-- Repairing only `reset_flags` and the `finally` is not enough while `preds_written` stays class-level:
-    a sub-routine never calls `reset()`, so what it records reaches the next statement. -/
-theorem two_repairs_not_enough :
-    (stepCStmtFixed (stepSub TState.fresh bP0).1 bPd).2 ≠ (stepCStmtFixed TState.fresh bPd).2 := by decide
+theorem tReset_core_all {s s' : TState} (hs : s.WF) (hs' : s'.WF) : (tReset s).core = (tReset s').core := by
+  rw [tReset_eq, tReset_eq]
+  have : resetFlags s.flags = resetFlags s'.flags := by
+    have h1 := resetFlags_on_of_WF hs
+    have h2 := resetFlags_on_of_WF hs'
+    have h3 := resetFlags_preds_nil s.flags
+    have h4 := resetFlags_preds_nil s'.flags
+    cases hr : resetFlags s.flags; cases hr' : resetFlags s'.flags
+    simp_all
+  simp [TState.core, this]
+
+/-- **`transform_insn` is history free, for ALL histories and all prior states** (no hypothesis on recorded predicates
+    any more): every instruction compiles to what a fresh instance gives. -/
+theorem insn_history_free_all (s s' : TState) (hs : s.WF) (hs' : s'.WF) (parts : List Beh) :
+    (stepInsn s parts).2 = (stepInsn s' parts).2 := by
+  rw [stepInsn_eq, stepInsn_eq]
+  exact stepInsnParts_core (tReset_core_all hs hs') parts
+
+theorem insn_history_free_every_history (h : List Call) (ps : List Beh) :
+    lastOutputs h (.insn ps) = lastOutputs [] (.insn ps) :=
+  insn_history_free_all _ _ (reachable_WF h) TState.WF_fresh ps
+
+/-- sub-routines are compiled by their own transformer and share nothing: history free for ALL histories -/
+theorem sub_history_free_every_history (h : List Call) (b : Beh) :
+    lastOutputs h (.subRoutine b) = lastOutputs [] (.subRoutine b) := by
+  show (stepSub _ b).2 = (stepSub _ b).2
+  rw [stepSub_eq, stepSub_eq]
 
 end KnownDefect
 -- END KNOWN-DEFECT SECTION
